@@ -16,6 +16,7 @@ the E12 calibrations, and the current version in the other YAML style).
 Oracle (no libvna involved): everything is judged on the event log and on the
 saved texts as read by the independent reader pylib/vcalfile.py.
 """
+import copy
 import math
 import os
 import sys
@@ -32,6 +33,17 @@ import vcalfile as V  # noqa: E402
 from runner import Script, cx, qs  # noqa: E402
 
 PROP = "C07"
+
+_QS = [("\\x%02x" % c) for c in range(256)]
+for _c in range(0x20, 0x7f):
+    _QS[_c] = chr(_c)
+_QS[0x22], _QS[0x5c], _QS[0] = '\\"', "\\\\", "\\0"
+
+
+def qsb(data):
+    """runner.qs for large byte strings"""
+    return '"' + "".join(map(_QS.__getitem__, data)) + '"'
+
 MAXP = 1000                      # VNACAL_MAX_PRECISION
 DEFAULT_FP, DEFAULT_DP = 7, 6    # vnacal(3)
 KAPPA_MAX = 1e4
@@ -72,7 +84,7 @@ def rand_calls(rng):
     if rng.random() < 0.12:
         calls.append(rand_precision(rng))
     calls.append(rand_precision(rng))
-    if rng.random() < 0.07:
+    if rng.random() < 0.03:
         calls.append(int(rng.choice(ODD_PREC)))
     return calls
 
@@ -133,7 +145,35 @@ def rand_shape(rng, ctype):
     return shapes[int(rng.choice(len(shapes), p=w / w.sum()))]
 
 
-def gen_scenario(rng, ctype, fp):
+def reuse_scenario(rng, sc, fp):
+    """private copy of a verified scenario with new frequencies and z0 (the
+    error networks and standards do not depend on either)"""
+    keep = sc.rng
+    sc.rng = None
+    cp = copy.deepcopy(sc)
+    sc.rng = keep
+    cp.rng = rng
+    cp.freqs = gen_freqs(rng, cp.F, fp)
+    cp.z0 = rand_z0(rng)
+    for st in cp.stds:
+        for row in st.sp:
+            for prm in row:
+                prm.var = None
+    return cp
+
+
+def gen_scenario(rng, ctype, fp, pool=None):
+    if pool is not None and pool.get(ctype) and rng.random() < 0.55:
+        lst = pool[ctype]
+        return reuse_scenario(rng, lst[int(rng.integers(0, len(lst)))], fp)
+    sc = gen_scenario_new(rng, ctype, fp)
+    if sc is not None and pool is not None:
+        pool.setdefault(ctype, []).append(sc)
+        return reuse_scenario(rng, sc, fp)
+    return sc
+
+
+def gen_scenario_new(rng, ctype, fp):
     for _ in range(12):
         r, c = rand_shape(rng, ctype)
         F = int(rng.choice([1, 1, 2, 2, 3, 4, 5]))
@@ -242,7 +282,7 @@ class Case(object):
     pass
 
 
-def gen_case(rng, forced_type=None, forced_shape=None):
+def gen_case(rng, forced_type=None, forced_shape=None, pool=None):
     cs = Case()
     cs.shape = forced_shape or SHAPES[int(rng.integers(0, len(SHAPES)))]
     if rng.random() < 0.10:
@@ -265,7 +305,7 @@ def gen_case(rng, forced_type=None, forced_shape=None):
             t = "E12"
         else:
             t = physics.TYPES[int(rng.integers(0, 8))]
-        sc = gen_scenario(rng, t, fpe)
+        sc = gen_scenario(rng, t, fpe, pool)
         if sc is None:
             cs.skipped += 1
             return None
@@ -1002,7 +1042,7 @@ def phase2(ta, A, flow):
     if e12:
         variants.append(("l2", V.write_text(A, "VNACAL 2.0").encode("utf-8")))
     for nm, data in variants:
-        s.op("write_file %s %s" % (qs(nm + ".vnacal"), qs(data)))
+        s.op("write_file %s %s" % (qs(nm + ".vnacal"), qsb(data)))
         L["load_" + nm] = s.op("%s=vnacal_load %s" % (nm, qs(nm + ".vnacal")))
         L["dump_" + nm] = s.op("dump_vnacal $%s" % nm)
         s.op("vnacal_set_fprecision $%s %d" % (nm, MAXP))
@@ -1101,7 +1141,7 @@ def compat_case():
     data = open(path, "rb").read()
     s = Script()
     L = {}
-    s.op("write_file \"compat.vnacal\" %s" % qs(data))
+    s.op("write_file \"compat.vnacal\" %s" % qsb(data))
     L["load"] = s.op('vc=vnacal_load "compat.vnacal"')
     L["dump"] = s.op("dump_vnacal $vc")
     s.op("vnacal_set_fprecision $vc %d" % MAXP)
@@ -1170,20 +1210,21 @@ def work(chunk_id, payload):
                 samples=[], violations=[], inconclusive=[], harness_errors=[])
     cnt = part["counters"]
     cases, meta = [], {}
+    pool = {}
     for k in range(ncases):
         n = chunk_id * ncases + k
         forced_t = physics.TYPES[n % 8] if k % 2 == 0 else None
         forced_s = SHAPES[(n // 2) % len(SHAPES)] if k % 3 == 0 else None
         if forced_s == "empty":
             forced_t = None
-        cs = gen_case(rng, forced_t, forced_s)
+        cs = gen_case(rng, forced_t, forced_s, pool)
         cnt["scenarios_regenerated"] = cnt.get("scenarios_regenerated", 0) + \
             cs.skipped
         text, L = phase1(cs)
         cid = "p%d_%d" % (chunk_id, k)
         cases.append((cid, text))
         meta[cid] = (cs, L)
-    cc = compat_case()
+    cc = compat_case() if chunk_id == 0 else None
     if cc is not None:
         cases.append(("compat%d" % chunk_id, cc[0]))
     wd = os.path.join(workroot, "w%d" % chunk_id)
